@@ -548,3 +548,97 @@ Fixpoint gaps_geb (g : Z) (ts : list Z) : bool :=
   | a :: ((b :: _) as r) => (g <=? b - a)%Z && gaps_geb g r
   | _ => true
   end.
+
+(* ------------------------------------------------------------------ how often the reporter reports (F18) *)
+
+(* what ends the wait of one round of statsReporter: an update command after w ms, some other
+   message after w ms, or the StatsEvery timer *)
+Inductive round := RUpdate (w : Z) | RNoise (w : Z) | RTick.
+
+Definition round_len (every : Z) (r : round) : Z :=
+  (rate_limit_ms + match r with
+                   | RUpdate w | RNoise w => Z.max 0 (Z.min w every)
+                   | RTick => Z.max 0 every
+                   end)%Z.
+
+(* the silence (ms since the last report, or since the start) at the end of each round.
+   [due_check] = true is the repaired reporter: a round that saw only other messages still reports
+   when StatsEvery has passed since the last report; false is the reporter as it was *)
+Fixpoint silences (due_check : bool) (every now last : Z) (rs : list round) : list Z :=
+  match rs with
+  | [] => []
+  | r :: rest =>
+    let now' := (now + round_len every r)%Z in
+    let reports := match r with
+                   | RNoise _ => due_check && (every <=? now' - last)%Z
+                   | _ => true
+                   end in
+    let last' := if reports then now' else last in
+    (now' - last')%Z :: silences due_check every now' last' rest
+  end.
+
+(* ------------------------------------------------------------------ what admission binds (serveWs) *)
+
+Definition lit_read : bytes := [114; 101; 97; 100].
+Definition lit_write : bytes := [119; 114; 105; 116; 101].
+
+(* the Client serveWs builds for an accepted websocket: topic from the path, scopes and expiry from
+   the token, capabilities from the scopes, user agent and forwarded address from the request *)
+Definition member_at_join (id : N) (topic : bytes) (scopes : list bytes) (connected expires : bytes)
+           (user_agent forwarded_for : bytes) : member :=
+  let fr := mk_frames 0 0 lex_zero (Finite lex_zero) in
+  mk_member id topic (Some scopes) (existsb (bytes_eqb lit_read) scopes) (existsb (bytes_eqb lit_write) scopes)
+            connected expires user_agent forwarded_for false fr fr.
+
+(* ------------------------------------------------------------------ GET /status: models.Report through the go-openapi JSON producer *)
+
+(* access.getStatusHandler copies every ClientReport into a models.Report (float32 numbers: their
+   text is an oracle like every float text here) and the runtime's JSON producer writes the list with
+   json.NewEncoder: no HTML escaping, a newline at the end, snake_case names, omitempty on every
+   member but scopes *)
+Definition rk_can_read := bytes_of "can_read".
+Definition rk_can_write := bytes_of "can_write".
+Definition rk_connected := bytes_of "connected".
+Definition rk_expires_at := bytes_of "expires_at".
+Definition rk_remote_addr := bytes_of "remote_addr".
+Definition rk_scopes := bytes_of "scopes".
+Definition rk_stats := bytes_of "stats".
+Definition rk_topic := bytes_of "topic".
+Definition rk_user_agent := bytes_of "user_agent".
+
+Definition omit_bool (k : bytes) (b : bool) : list (bytes * json) := if b then [(k, JBool true)] else [].
+Definition omit_str (k : bytes) (s : bytes) : list (bytes * json) :=
+  match s with [] => [] | _ => [(k, jstr s)] end.
+(* omitempty on a float: 0 and -0 are left out *)
+Definition zero_lex (l : bytes) : bool := bytes_eqb l [48] || bytes_eqb l [45; 48].
+Definition omit_num (k : bytes) (f : fnum) : option (list (bytes * json)) :=
+  match f with
+  | NonFinite => None
+  | Finite l => if zero_lex l then Some [] else if num_ok l then Some [(k, JNum l)] else None
+  end.
+
+(* models.Details: fps, last, size *)
+Definition rest_details (s : rstats) : option json :=
+  match omit_num k_fps (rs_fps s), omit_num k_size (rs_size s) with
+  | Some f, Some z => Some (JObj (f ++ omit_str k_last (rs_last s) ++ z))
+  | _, _ => None
+  end.
+
+(* models.Report, members in declaration order; models.Stats: rx before tx *)
+Definition rest_report (r : report) : option json :=
+  match rest_details (r_rx r), rest_details (r_tx r) with
+  | Some x, Some t =>
+    Some (JObj (omit_bool rk_can_read (r_canRead r) ++ omit_bool rk_can_write (r_canWrite r)
+                ++ omit_str rk_connected (r_connected r) ++ omit_str rk_expires_at (r_expiresAt r)
+                ++ omit_str rk_remote_addr (r_remoteAddr r)
+                ++ [(rk_scopes, scopes_json (r_scopes r)); (rk_stats, JObj [(k_rx, x); (k_tx, t)])]
+                ++ omit_str rk_topic (r_topic r) ++ omit_str rk_user_agent (r_userAgent r)))
+  | _, _ => None
+  end.
+
+(* the handler starts from an empty, non-nil slice: no member at all gives [] *)
+Definition encode_rest (rs : list report) : option bytes :=
+  match map_opt rest_report rs with
+  | Some l => Some (print false (JArr l) ++ [10])
+  | None => None
+  end.
